@@ -1,6 +1,6 @@
 SPECIFICATION Spec
 CONSTANTS
-  NV = 12
+  NV = 8
   Mode = "quick"
   NS = 0
   NB = 256
